@@ -930,6 +930,7 @@ let grouped ps : string =
 
 let ue_line args =
   match args with
+  | ["ck"; h] -> "model=" ^ hex_of_str (header_canon_key (str_of_hex h))
   | ["pe"; h] -> "model=" ^ hex_of_str (url_path_escape (str_of_hex h))
   | ["qe"; h] -> "model=" ^ hex_of_str (url_query_escape (str_of_hex h))
   | ["pu"; h] -> "model=" ^ (match url_unescape false (str_of_hex h) with Some s -> "ok:" ^ hex_of_str s | None -> "ERR")
